@@ -158,7 +158,20 @@ def micro():
     w = build(2, [1], [[1], [2]], [[1], [1]], [[0], [0]], [0, 1], until=4, conn_kind="weak")
     w["tree"] = [w["tree"]]
     out.append(w)
+    # the written attribute also has an ordinary persistent source, cache off (values remembered by mosaik)
+    out.append(with_producer(build(1, [1], [[1]], [[1, 0]], [[0]], [0], until=4), [2], cache=False))
+    out.append(with_producer(build(2, [2], [[1], [1]], [[1], [0, 1]], [[0], [0]], [0, 1], until=5), [1], cache=True))
     return out
+
+
+def with_producer(scn, p_steps, cache):
+    """a further simulator P feeds the attribute that the agents write with set_data through an ordinary
+    persistent connection"""
+    scn["sims"].append(_sim("P", "time-based", steps=p_steps))
+    scn["tree"].append("P")
+    scn["conns"].append(_c("P", "po", "A", "mi"))
+    scn["world"]["cache"] = cache
+    return scn
 
 
 def negatives():
@@ -217,6 +230,8 @@ def shard(prop, tier, seed, shard, nshards):
         elif grouped == 2:
             scn["tree"] = [scn["tree"][:1], scn["tree"][1:]]  # controller and agents in sibling groups
         scn["world"]["cache"] = draw(st.booleans())
+        if draw(st.integers(0, 2)) == 0:
+            with_producer(scn, draw(st.lists(st.integers(1, 3), min_size=1, max_size=2)), scn["world"]["cache"])
         scn["run"]["lazy_stepping"] = draw(st.booleans())
         if draw(st.integers(0, 5)) == 0:
             scn["world"]["debug"] = True
